@@ -214,8 +214,18 @@ def proof_status(prop):
 
 # ---------------------------------------------------------------- runners
 
+def _big_stack():
+    # the extracted model recurses over byte lists (a 2 MB payload is a 2-million-element list)
+    import resource
+    try:
+        resource.setrlimit(resource.RLIMIT_STACK, (4 << 30, resource.getrlimit(resource.RLIMIT_STACK)[1]))
+    except (ValueError, OSError):
+        pass
+
+
 def run_oracle(text, timeout=600):
-    rc, o, e = sh([ORACLE], inp=text.encode(), timeout=timeout)
+    p = subprocess.run([ORACLE], input=text.encode(), stdout=subprocess.PIPE, stderr=subprocess.PIPE, timeout=timeout, preexec_fn=_big_stack)
+    rc, o, e = p.returncode, p.stdout, p.stderr
     return [ln.strip() for ln in o.decode().splitlines()], rc, e.decode(errors='replace')
 
 
